@@ -11,11 +11,13 @@ package main
 import (
 	"context"
 	"encoding/json"
+	"encoding/pem"
 	"flag"
 	"fmt"
 	"io"
 	"net"
 	"net/http"
+	"net/http/httptest"
 	"os"
 	"os/signal"
 	"strconv"
@@ -31,26 +33,29 @@ import (
 )
 
 type verifOp struct {
-	Op        string      `json:"op"`
-	Sets      [][2]string `json:"sets,omitempty"`
-	Probe     bool        `json:"probe,omitempty"`
-	Addrs     []string    `json:"addrs,omitempty"`
-	Dials     int         `json:"dials,omitempty"`
-	Files     []string    `json:"files,omitempty"`
-	To        string      `json:"to,omitempty"`
-	Output    string      `json:"output,omitempty"`
-	Type      string      `json:"type,omitempty"`
-	Every     int64       `json:"every,omitempty"`
-	Buckets   string      `json:"buckets,omitempty"`
-	Threshold int         `json:"threshold,omitempty"`
-	Title     string      `json:"title,omitempty"`
-	Args      []string    `json:"args,omitempty"`
-	Steps     []string    `json:"steps,omitempty"`
-	Hits      int         `json:"hits,omitempty"`
-	LatencyMs int         `json:"latency_ms,omitempty"`
-	SignalMs  int         `json:"signal_ms,omitempty"`
-	Signals   int         `json:"signals,omitempty"`
-	Workers   int         `json:"workers,omitempty"`
+	Op        string            `json:"op"`
+	Sets      [][2]string       `json:"sets,omitempty"`
+	Probe     bool              `json:"probe,omitempty"`
+	Addrs     []string          `json:"addrs,omitempty"`
+	Dials     int               `json:"dials,omitempty"`
+	Files     []string          `json:"files,omitempty"`
+	To        string            `json:"to,omitempty"`
+	Output    string            `json:"output,omitempty"`
+	Type      string            `json:"type,omitempty"`
+	Every     int64             `json:"every,omitempty"`
+	Buckets   string            `json:"buckets,omitempty"`
+	Threshold int               `json:"threshold,omitempty"`
+	Title     string            `json:"title,omitempty"`
+	Args      []string          `json:"args,omitempty"`
+	Steps     []string          `json:"steps,omitempty"`
+	Hits      int               `json:"hits,omitempty"`
+	LatencyMs int               `json:"latency_ms,omitempty"`
+	SignalMs  int               `json:"signal_ms,omitempty"`
+	Signals   int               `json:"signals,omitempty"`
+	Workers   int               `json:"workers,omitempty"`
+	Dir       string            `json:"dir,omitempty"`
+	Docs      map[string]string `json:"docs,omitempty"`
+	Server    string            `json:"server,omitempty"`
 }
 
 type verifSet struct {
@@ -80,6 +85,9 @@ type verifOut struct {
 	StopFirst *bool               `json:"stop_first,omitempty"`
 	Returned  bool                `json:"returned,omitempty"`
 	Started   int64               `json:"started,omitempty"`
+	Requests  []verifReq          `json:"requests,omitempty"`
+	BaseURL   string              `json:"base_url,omitempty"`
+	PromText  string              `json:"prom_text,omitempty"`
 }
 
 func TestVerifDriver(t *testing.T) {
@@ -137,6 +145,8 @@ func verifRun(op *verifOp) (res *verifOut) {
 		verifPump(op, res)
 	case "attackpump":
 		verifAttackPump(op, res)
+	case "e2e":
+		verifE2E(op, res)
 	default:
 		res.Err = "unknown op"
 	}
@@ -398,5 +408,157 @@ func verifAttackPump(op *verifOp, res *verifOut) {
 	if res.Encoded == nil {
 		res.Encoded = []uint64{}
 	}
+	mu.Unlock()
+}
+
+// verifReq is what the end-to-end server saw of one request.
+type verifReq struct {
+	Seq     string              `json:"seq"`
+	Attack  string              `json:"attack"`
+	Method  string              `json:"method"`
+	Path    string              `json:"path"`
+	Host    string              `json:"host"`
+	Header  map[string][]string `json:"header"`
+	BodyLen int                 `json:"body_len"`
+	Body    string              `json:"body"`
+	Chunked bool                `json:"chunked"`
+	Remote  string              `json:"remote"`
+	Proto   string              `json:"proto"`
+	TLS     bool                `json:"tls"`
+	StartNs int64               `json:"start_ns"`
+	EndNs   int64               `json:"end_ns"`
+}
+
+// verifE2E runs the real attack command (op.Args) against an in-process HTTP
+// server on the loopback interface (op.Server: "plain", "tls" or "unix") whose
+// behaviour is selected by the request path, and reports what the server saw.
+// op.Docs are files written into op.Dir first. In arguments and files {{URL}},
+// {{ADDR}}, {{PORT}}, {{DIR}}, {{CERT}}, {{SOCK}} and {{PROM}} are replaced.
+func verifE2E(op *verifOp, res *verifOut) {
+	var (
+		mu    sync.Mutex
+		reqs  []verifReq
+		began = time.Now()
+		prom  string
+		sock  = op.Dir + "/e2e.sock"
+	)
+	if l, err := net.Listen("tcp", "127.0.0.1:0"); err == nil {
+		prom = l.Addr().String()
+		l.Close()
+	}
+	scrape := func() (string, int) {
+		c := http.Client{Timeout: time.Second}
+		r, err := c.Get("http://" + prom + "/metrics")
+		if err != nil {
+			return "", -1
+		}
+		defer r.Body.Close()
+		bs, _ := io.ReadAll(r.Body)
+		n := 0
+		for _, line := range strings.Split(string(bs), "\n") {
+			if strings.HasPrefix(line, "request_seconds_count") {
+				if i := strings.LastIndexByte(line, ' '); i >= 0 {
+					k, _ := strconv.Atoi(line[i+1:])
+					n += k
+				}
+			}
+		}
+		return string(bs), n
+	}
+	handler := http.HandlerFunc(func(w http.ResponseWriter, r *http.Request) {
+		start := time.Since(began)
+		body, _ := io.ReadAll(r.Body)
+		rec := verifReq{Seq: r.Header.Get("X-Vegeta-Seq"), Attack: r.Header.Get("X-Vegeta-Attack"), Method: r.Method, Path: r.URL.Path,
+			Host: r.Host, Header: r.Header, BodyLen: len(body), Chunked: len(r.TransferEncoding) > 0, Remote: r.RemoteAddr,
+			Proto: r.Proto, TLS: r.TLS != nil, StartNs: int64(start)}
+		if len(body) <= 256 {
+			rec.Body = string(body)
+		}
+		parts := strings.Split(strings.Trim(r.URL.Path, "/"), "/")
+		arg := 0
+		if len(parts) > 1 {
+			arg, _ = strconv.Atoi(parts[1])
+		}
+		switch parts[0] {
+		case "size":
+			w.Write([]byte(strings.Repeat("x", arg)))
+		case "status":
+			w.WriteHeader(arg)
+			w.Write([]byte("s"))
+		case "redirect":
+			if arg > 0 {
+				http.Redirect(w, r, "/redirect/"+strconv.Itoa(arg-1), http.StatusFound)
+			} else {
+				w.Write([]byte("end"))
+			}
+		case "slow":
+			time.Sleep(time.Duration(arg) * time.Millisecond)
+			w.Write([]byte("slow"))
+		case "echo":
+			w.Write(body)
+		case "promwait": // answer once the exporter of the attack command shows arg observed results
+			deadline := time.Now().Add(20 * time.Second)
+			for {
+				text, n := scrape()
+				mu.Lock()
+				res.PromText = text
+				mu.Unlock()
+				if n >= arg || time.Now().After(deadline) {
+					break
+				}
+				time.Sleep(2 * time.Millisecond)
+			}
+			w.Write([]byte("prom"))
+		default:
+			w.Write([]byte("ok"))
+		}
+		rec.EndNs = int64(time.Since(began))
+		mu.Lock()
+		reqs = append(reqs, rec)
+		mu.Unlock()
+	})
+	srv := httptest.NewUnstartedServer(handler)
+	switch op.Server {
+	case "tls":
+		srv.StartTLS()
+	case "unix":
+		l, err := net.Listen("unix", sock)
+		if err != nil {
+			res.Err = "listen: " + err.Error()
+			return
+		}
+		srv.Listener.Close()
+		srv.Listener = l
+		srv.Start()
+	default:
+		srv.Start()
+	}
+	defer srv.Close()
+	base := srv.URL
+	if op.Server == "unix" {
+		base = "http://unix.invalid"
+	}
+	res.BaseURL = base
+	addr := strings.TrimPrefix(strings.TrimPrefix(base, "https://"), "http://")
+	port := addr[strings.LastIndexByte(addr, ':')+1:]
+	certFile := op.Dir + "/server-cert.pem"
+	if c := srv.Certificate(); c != nil {
+		_ = os.WriteFile(certFile, pem.EncodeToMemory(&pem.Block{Type: "CERTIFICATE", Bytes: c.Raw}), 0o644)
+	}
+	sub := strings.NewReplacer("{{URL}}", base, "{{ADDR}}", addr, "{{PORT}}", port, "{{DIR}}", op.Dir, "{{CERT}}", certFile,
+		"{{SOCK}}", sock, "{{PROM}}", prom)
+	for name, doc := range op.Docs {
+		if err := os.WriteFile(op.Dir+"/"+name, []byte(sub.Replace(doc)), 0o644); err != nil {
+			res.Err = "doc: " + err.Error()
+			return
+		}
+	}
+	args := make([]string, len(op.Args))
+	for i, a := range op.Args {
+		args[i] = sub.Replace(a)
+	}
+	res.Err = verifErr(attackCmd().fn(args))
+	mu.Lock()
+	res.Requests = append([]verifReq{}, reqs...)
 	mu.Unlock()
 }
